@@ -17,7 +17,8 @@ def opOfJson (j : Json) : R Op := do
   let res : Option Nat := match optVal j "res" with
     | some (Json.num n) => some n.mantissa.toNat
     | _ => none
-  pure { fn := fn, bind := bind, res := res, newVal := fun _ => 1, newRng := 1, newCoords := freshCoords, evict := fun _ => false, key := none }
+  let inplace := match optVal j "inplace" with | some (Json.bool b) => b | _ => true
+  pure { fn := fn, bind := bind, res := res, inplace := inplace, newVal := fun _ => 1, newRng := 1, newCoords := freshCoords, evict := fun _ => false, key := none }
 
 def handle (op : String) (j : Json) : Option (R Json) :=
   match op with
